@@ -8,13 +8,38 @@ _ENV = {'GOGC': '800', 'GOMAXPROCS': '2'}
 _ENV1 = {'GOGC': '800', 'GOMAXPROCS': '1'}
 
 CHECKS['C05'] = {
-    'ready': False,
+    'ready': True,
     'level': 'exploration',
-    'rule': 'placeholder',
-    'assumptions': [],
+    'rule': 'rapid unit: layouts of 1-16 keepstore services (random UUIDs and block hashes, so rendezvous rank varies) with 0-3 mounts each, '
+            'read-only flags on mounts and services (incl. all-read-only plans), per-mount replication 1-3, DeviceID blank / own / shared '
+            'between mounts on different servers (generator switch: label mode:noshared, ~40% of cases, never shares a device), storage '
+            'classes subsets of {default,a,b} (~40% of cases default-only); block = per PHYSICAL device copy / no copy with mtime old, '
+            'old-colliding, new or exactly at the MinMtime boundary, 0-3 referencing collections with desired replication 0-4 over class '
+            'subsets. The state is fed as GetCurrentState does (real cleanupMounts first; every surviving mount of a device reports the '
+            'copy with the same mtime; AddReplicas/IncreaseDesired in drawn order) into the real balanceBlock (twice, KeepServices is a map) '
+            'and in 1/8 of the cases also through the real ComputeChangeSets with 1-3 blocks; the emitted ChangeSets, lost flag and '
+            'Trash/Pull JSON are judged by a physical-device replication model, items (i)-(vii). '
+            'enum unit: EXHAUSTIVE enumeration of the small scope - every layout of <=4 services (index = rendezvous rank) x 1-2 mounts with '
+            '<=3 mounts in total in the quick tier and <=4 mounts in total in the thorough tier (1.58e8 (layout, block) cases), x every '
+            'service and mount read-only flag x every device structure (blank / own / one or two devices shared across servers) x '
+            'replication 1-2 per device x per-device copy state {none, old, old-colliding, new} x desired 0-4, default class only. '
+            'pinned unit: the minimal layouts of the four defects this check found (three repaired in /repo, one listed as known finding). '
+            'non-trivial = >=2 physical copies and at least one trash or pull emitted, or a class with desired>0 that is under-replicated '
+            'while a copy exists; distinct = fingerprint of the canonical JSON of layout+blocks (rapid) or of (layout index, replication '
+            'mask, copy-state index, desired) (enumeration).',
+    'assumptions': [
+        'physical model: a device is the DeviceID if non-blank, else the mount itself; all mounts reporting one DeviceID are views of one '
+        'backend volume and report the same replication and storage classes; a device is not mounted twice on the same server',
+        'every view of a device reports the same mtime for a block, because GetCurrentState fetches one index per device and applies it to '
+        'all of its mounts (upstream unit tests that give views different mtimes are outside this domain)',
+        'oracle failures matching the narrow classifier of the listed finding c05-other-server-copy-stands-in-for-class are counted, not '
+        'reported (they need a mount outside the desired class and a server with two mounts of the class: impossible in default-only layouts)',
+        'the bounded-exhaustive part covers the default storage class only; multi-class layouts are explored by the rapid unit',
+    ],
+    'level_note': 'exploration; the enum unit is exhaustive over the stated small scope only (not over the quantifier of the property)',
     'units': [
         unit('balance', 'keepbalance_c05', '^TestVerifC05Balance$',
-             {'shards': 16, 'checks': 12500}, {'shards': 16, 'checks': 100000, 'timeout': 1500}, env=_ENV),
+             {'shards': 16, 'checks': 10000}, {'shards': 16, 'checks': 100000, 'timeout': 1500}, env=_ENV),
         unit('pinned', 'keepbalance_c05', '^TestVerifC05Pinned$',
              {'shards': 1}, {'shards': 1}, rapid=False, env=_ENV1),
         unit('enum', 'keepbalance_c05', '^TestVerifC05Enum$',
